@@ -150,3 +150,28 @@ Example C11_nonvacuous :
   | None => False
   end.
 Proof. vm_compute. repeat split; reflexivity. Qed.
+
+(* ---- tie (a), round 9 (MT/WaitLink.v; Gen/Leaf.v and Gen/LeafWait.v are re-translated from src/iv_wait.c on every run):
+   the model's notion of a terminal status IS iv_wait_status_dead of the source; the reaper asks wait4 for any child,
+   non-blocking, including stopped and continued ones; a status is routed iff the interest was found; the kill helper is
+   guarded by the DEAD flag as the model's WKill label demands ---- *)
+From Ivv Require Import MT.WaitLink.
+From Ivv Require Gen.Leaf Gen.LeafWait.
+
+Theorem C11_status_dead_is_the_code :
+  forall st, 0 <= st -> Leaf.iv_wait_status_dead st = (if is_dead st then 1 else 0).
+Proof. exact status_dead_is_the_code. Qed.
+Print Assumptions C11_status_dead_is_the_code.
+
+Theorem C11_reaper_call_is_the_code :
+  LeafWait.wait_reap_which tt = Some (-1) /\ LeafWait.wait_reap_opts tt = Some 11.
+Proof. exact leaf_reap_call. Qed.
+Print Assumptions C11_reaper_call_is_the_code.
+
+Theorem C11_kill_guard_is_the_code :
+  forall s t id sig performed w,
+  find id (ints s) = Some w ->
+  (step s (WKill t id sig performed) <> None ->
+   LeafWait.wait_kill_alive (if w_dead w then 1 else 0) = Some performed).
+Proof. exact kill_guard_is_the_code. Qed.
+Print Assumptions C11_kill_guard_is_the_code.
